@@ -114,4 +114,22 @@ def detok (ts : List PT) : Bytes := ts.flatMap tokText
 /-- the canonical text -/
 def render (e : Expr) : Bytes := detok (rtoks e)
 
+/-! ### the same tokens with other white space
+
+`renderW bs e`: the `i`-th token is followed by the `i`-th blank string of `bs` instead of one space (one space where `bs`
+is too short; still nothing after an axis name and after `::`).  `Blanks bs`: every string of `bs` is a non-empty string
+of white-space bytes (space, tab, LF, CR). -/
+
+def Blank (b : Bytes) : Prop := b ≠ [] ∧ ∀ c ∈ b, Path.isWs c = true
+def Blanks (bs : List Bytes) : Prop := ∀ b ∈ bs, Blank b
+
+def tokTextW (t : PT) (b : Bytes) : Bytes := if t.1 == .axisname || t.1 == .dcolon then t.2 else t.2 ++ b
+
+def detokW : List PT → List Bytes → Bytes
+  | [], _ => []
+  | t :: ts, [] => tokTextW t [0x20] ++ detokW ts []
+  | t :: ts, b :: bs => tokTextW t b ++ detokW ts bs
+
+def renderW (bs : List Bytes) (e : Expr) : Bytes := detokW (rtoks e) bs
+
 end LyModel.XPath.Render
